@@ -19,6 +19,7 @@ def run(repo, report, tier):
                 "ties and the early stop rule change which suffix/prefix is removed for particular quality patterns")
     report.rule("C13.R4", "the quality base only shifts the scale: it occurs only as (q - base)", "base 64 files are trimmed differently from the same qualities in base 33")
     report.guard("C13.R1", "trimmers", r1_reported, repo, report)
+    report.guard("C13.R2", "make_quality_trimmers", r2_which_trimmers, repo, report)
     report.guard("C13.R2", "parameter roles", r2_roles, repo, report)
     report.guard("C13.R3", "scans", r3_scans, repo, report)
     report.notes.append("Not decided: that this scan computes the stated arg-min for every quality string (a statement about sums of runtime values); R3 fixes the tie and stop rules and the recorded positions, nothing more.")
@@ -71,6 +72,69 @@ def r1_reported(repo, report):
     report.ob("C13.R2", "qualtrim signatures", ok, facts={"quality_trim_index": params(q), "nextseq_trim_index": params(n)}, expected="(qualities, cutoff_front, cutoff_back, base) / (sequence, cutoff, base)", loc=repo.loc(q))
     c, qi = repo.need_method("QualityTrimmer", "__init__")
     report.ob("C13.R2", "QualityTrimmer parameter order", params(qi)[1:] == ["cutoff_front", "cutoff_back", "base"], facts={"params": params(qi)[1:]}, expected=["cutoff_front", "cutoff_back", "base"], loc=repo.loc(qi))
+
+
+def r2_which_trimmers(repo, report):
+    """make_quality_trimmers: a quality trimmer exists for a read iff a cutoff applies to it and is not the literal
+    "0"; it gets BOTH parsed cutoffs and the quality base; in paired mode a missing -Q copies -q."""
+    import re as _re
+    fn = repo.func("cli", "make_quality_trimmers")
+    if fn is None:
+        raise Unrecognised("cli.make_quality_trimmers not found")
+    ps = params(fn)
+    if len(ps) != 4:
+        raise Unrecognised("make_quality_trimmers: four parameters (cutoff1, cutoff2, quality_base, paired) expected", repo.loc(fn))
+
+    def hook(ex, node, env):
+        cn = chain(node.func)
+        if cn == "QualityTrimmer":
+            a = []
+            for x in node.args:
+                if isinstance(x, ast.Starred):
+                    base = vkey(ex.ev(x.value, env))
+                    a += [f"{base}[0]", f"{base}[1]"]
+                else:
+                    a.append(vkey(ex.ev(x, env)))
+            a += [f"{k.arg}={vkey(ex.ev(k.value, env))}" for k in node.keywords]
+            return Obj("QT(" + ", ".join(a) + ")", nonnull=True)
+        if cn in ("copy.copy", "copy", "copy.deepcopy"):
+            v = ex.ev(node.args[0], env)
+            if isinstance(v, Const) and v.value is None:
+                return Const(None)
+            return Obj(f"COPY({vkey(v)})", nonnull=getattr(v, "nonnull", False))
+        return None
+
+    def qt(q):
+        return f"QT(parse_cutoffs({q})[0], parse_cutoffs({q})[1], QB)"
+
+    roles = {"n1": Bool("isnone:Q1"), "z1": Bool("eq:Q1:'0'"), "n2": Bool("isnone:Q2"), "z2": Bool("eq:Q2:'0'")}
+
+    def constraint(rv):
+        return not (rv["n1"] and rv["z1"]) and not (rv["n2"] and rv["z2"])
+
+    bad = []
+    cases = 0
+    for paired in (False, True):
+        rows = explore(repo, strip_docstring(fn.body), {ps[0]: Obj("Q1"), ps[1]: Obj("Q2"), ps[2]: Obj("QB", nonnull=True), ps[3]: Const(paired)}, call_hook=hook, inline=False)
+
+        def outcome(r):
+            return tuple(str(e[2]) for e in r.effects if e[0] == "yield") if r.exit[0] != "raise" else ("raise",)
+
+        def expected(rv, paired=paired):
+            t1 = qt("Q1") if not rv["n1"] and not rv["z1"] else None
+            t2 = qt("Q2") if not rv["n2"] and not rv["z2"] else None
+            if not paired:
+                return (t1,) if t1 else ()
+            if not rv["n1"] and rv["n2"]:
+                t2 = f"COPY({t1})" if t1 else None
+            return (f"({t1}, {t2})",) if (t1 or t2) else ()
+
+        mism, n, _ = check_table(rows, roles, expected, outcome, constraint=constraint, independent_extras=True)
+        cases += n
+        bad += [dict(m, paired=paired) for m in mism]
+    report.ob("C13.R2", "make_quality_trimmers: which trimmers are built, with which cutoffs", not bad, facts={"mismatches": bad[:3]}, cases=cases, loc=repo.loc(fn),
+              expected='a trimmer for a read iff its cutoff is given and is not the literal "0"; QualityTrimmer(front, back, quality_base); paired: a missing -Q copies the -q trimmer; nothing is yielded when there is no trimmer',
+              why=(f"for {bad[0]['inputs']} (paired={bad[0]['paired']}) the function yields {bad[0]['code']}, expected {bad[0]['expected']}" if bad else ""))
 
 
 def r2_roles(repo, report):
